@@ -86,6 +86,18 @@ FIXED = {
                                               force={"ol": ("value", S), "ol/0/x": ("value", S), "ol/1/x": ("value", G)}, lists={"ol": (2, True, 2)}),
     "stream-fails-middle-item-pending": fixed('query Q { ol @stream(initialCount:0, label:"S") { x } }', {"S": ""},
                                               force={"ol": ("value", S), "ol/0/x": ("value", S), "ol/1/x": ("value", G), "ol/2/x": ("value", S)}, lists={"ol": (3, True, 3)}),
+    # two overlapping fragments on one object fail together through the field they share while their own fields are still in
+    # flight (one of them beside a started stream): the queue ends by itself with work that nobody waits for any more
+    "overlap-shared-fails-others-in-flight": fixed('query Q { o { ... @defer(label:"A") { x nx } ... @defer(label:"B") { nx y } } }', {"A": "", "B": ""},
+                                                   force={"o": ("value", S), "o/x": ("value", G), "o/y": ("value", G), "o/nx": ("raise", G)}),
+    "overlap-shared-fails-stream-in-flight": fixed('query Q { o { ... @defer(label:"A") { x l @stream(initialCount:1, label:"S") nx } ... @defer(label:"B") { nx y } } }',
+                                                   {"A": "", "B": "", "S": ""},
+                                                   force={"o": ("value", S), "o/x": ("value", G), "o/y": ("value", G), "o/nx": ("null", G), "o/l": ("value", S)},
+                                                   lists={"o/l": (3, True, None)}),
+    # a field shared by a fragment that fails and by a fragment nested in a sibling that succeeds
+    "shared-field-failing-and-nested-sibling": fixed('query Q { o { y2: y ... @defer(label:"A") { x nx } ... @defer(label:"B") { slow: y ... @defer(label:"C") { x } } } }',
+                                                     {"A": "", "B": "", "C": "B"},
+                                                     force={"o": ("value", S), "o/y2": ("value", S), "o/x": ("value", G), "o/nx": ("raise", G), "o/slow": ("value", G)}),
     # a field shared by a shallow and a deeper fragment; the deeper fragment fails through another field
     "shared-field-deeper-fails": fixed('query Q { ... @defer(label:"A") { o { x slow: y } } o { y2: y ... @defer(label:"F") { x nx } } }',
                                        {"A": "", "F": ""},
